@@ -54,86 +54,259 @@ class Skel:
             return view.fx.call_info(f, site[1]).cmp
 
         flowvp.PRIO_CMP_SITES = is_prio
+        prev = flowvp.GENS
+        flowvp.GENS = self.gens_of_mu
         try:
             return canon(t, self.closure_body)
         finally:
             flowvp.PRIO_CMP_SITES = None
+            flowvp.GENS = prev
+
+    def gens_of_mu(self, mu):
+        """generator shapes of the loop-carried variable(s) behind a mu term"""
+        locs = set()
+        fnkey = None
+        for a in mu[1]:
+            if a[0] == "defat" and len(a) > 3:
+                fnkey = a[1][0]
+                locs.add(a[3][0])
+            elif a[0] == "param":
+                fnkey = a[1]
+                locs.add(a[2])
+        if not locs or fnkey is None:
+            return None
+        f = self.view.prog.fn(fnkey)
+        if f is None:
+            return None
+        out = set()
+        for l in locs:
+            out |= self.gens(f, l)
+        return out
+
+    def gens(self, f, l, seen=None):
+        key = (f.key, l)
+        if not hasattr(self, "_gens"):
+            self._gens = {}
+        if key in self._gens:
+            return self._gens[key]
+        seen = seen or set()
+        if l in seen:
+            return set()
+        seen = seen | {l}
+        r = self.fvp.reach(f)
+        out = set()
+        if f.locals[l]["arg"]:
+            out.add("P%d" % l)
+        live = self.live_defs(f)
+        for did in r.defs_of(l):
+            if did not in live:
+                continue
+            d = r.defs[did]
+            # plain copy of another loop-carried variable: close over it
+            src = None
+            if d[0] == "stmt" and d[3]["rv"]["k"] == "use":
+                o = d[3]["rv"]["op"]
+                if o["k"] in ("copy", "move") and not o["place"]["proj"]:
+                    src = o["place"]["local"]
+            hops = 0
+            while src is not None and src not in r.multi and hops < 6:
+                ds = f.defs.get(src, [])
+                nxt = None
+                if len(ds) == 1 and ds[0][0] == "stmt" and ds[0][3]["rv"]["k"] == "use":
+                    o = ds[0][3]["rv"]["op"]
+                    if o["k"] in ("copy", "move") and not o["place"]["proj"]:
+                        nxt = o["place"]["local"]
+                if nxt is None:
+                    break
+                src = nxt
+                hops += 1
+            if src is not None and src in r.multi:
+                out |= self.gens(f, src, seen)
+                continue
+            v = self.fvp.def_term(f, d, ())
+            from . import flowvp
+            flowvp._MU_DEPTH[0] += 1   # render nested loop-carried values as μ
+            try:
+                out.add(canon(v, self.closure_body))
+            finally:
+                flowvp._MU_DEPTH[0] -= 1
+        if len(seen) == 1:
+            self._gens[key] = out
+        return out
+
+    def live_defs(self, f):
+        """definitions of multiply-defined locals that reach at least one use along a feasible path"""
+        if not hasattr(self, "_live"):
+            self._live = {}
+        if f.key in self._live:
+            return self._live[f.key]
+        r = self.fvp.reach(f)
+        live = set()
+
+        def use(l, bb, pos):
+            if l in r.multi:
+                live.update(r.at(l, bb, pos))
+
+        def place_uses(pl, bb, pos):
+            use(pl["local"], bb, pos)
+            for e in pl["proj"]:
+                if e["k"] == "index":
+                    use(e["local"], bb, pos)
+
+        def op_uses(o, bb, pos):
+            if o["k"] in ("copy", "move"):
+                place_uses(o["place"], bb, pos)
+
+        for bb in sorted(f.cfg.reach):
+            b = f.blocks[bb]
+            for si, st in enumerate(b["stmts"]):
+                if st["k"] != "assign":
+                    continue
+                rv = st["rv"]
+                for k in ("op", "a", "b"):
+                    if isinstance(rv.get(k), dict):
+                        op_uses(rv[k], bb, si)
+                if "place" in rv:
+                    place_uses(rv["place"], bb, si)
+                for o in rv.get("ops", []):
+                    op_uses(o, bb, si)
+                if st["place"]["proj"]:
+                    place_uses(st["place"], bb, si)
+            t = b["term"]
+            if t["k"] == "call":
+                for a in t["args"]:
+                    op_uses(a, bb, 10 ** 6)
+            elif t["k"] == "switch":
+                op_uses(t["discr"], bb, 10 ** 6)
+            elif t["k"] == "assert":
+                op_uses(t["cond"], bb, 10 ** 6)
+            elif t["k"] == "return" and 0 in r.multi:
+                live.update(r.at(0, bb, 10 ** 6))
+        self._live[f.key] = live
+        return live
+
+    # ---- literals: normalised branch conditions -------------------------------------------------
+    def literals_of_edge(self, f, sb, target):
+        """the condition(s) known to hold when the switch at `sb` takes the edge to `target`, as (text, polarity) pairs;
+        all order comparisons are rendered as `lt`, equalities as `eq`, emptiness as eq(LEN,0), Option tests as some(x)"""
+        t = f.term(sb)
+        d = self.fvp.switch_discr(f, sb)
+        vals = [v for v, tb in t["targets"] if tb == target]
+        is_else = t["otherwise"] == target
+        all_vals = [v for v, _ in t["targets"]]
+        return self.literals(d, vals, is_else, all_vals)
+
+    def literals(self, d, vals, is_else, all_vals):
+        from .core import strip as _strip
+        d = _strip(d)
+        while d[0] == "defat":
+            d = _strip(d[2])
+        # truth of a boolean discriminant on this edge
+        truth = None
+        if is_else and 0 in all_vals and not vals:
+            truth = True
+        elif vals == [0]:
+            truth = False
+        elif vals and 0 not in vals and not is_else:
+            truth = True
+        if d[0] == "discr":
+            x = self.c(d[1])
+            if vals == [1] or (is_else and all_vals == [0]):
+                return [("some(%s)" % x, True)]
+            if vals == [0] or (is_else and all_vals == [1]):
+                return [("some(%s)" % x, False)]
+            return [("discr(%s) in %s%s" % (x, vals, "+else" if is_else else ""), True)]
+        txt = self.c(d)
+        if txt == "LEN":
+            # integer match on the length
+            if vals and not is_else:
+                return [int_literal("Eq", "LEN", vals[0], True)]
+            return [int_literal("Eq", "LEN", v, False) for v in sorted(all_vals)]
+        if truth is None:
+            return [("%s in %s%s" % (txt, vals, "+else" if is_else else ""), True)]
+        return [self.bool_literal(d, truth)]
+
+    def bool_literal(self, d, truth):
+        from .core import strip as _strip
+        d = _strip(d)
+        while d[0] == "defat":
+            d = _strip(d[2])
+        if d[0] == "unop" and d[1] == "Not":
+            return self.bool_literal(d[2], not truth)
+        return normalise_bool(self.c(d), truth)
+
+    def dominating_literals(self, f, bb):
+        cfg = f.cfg
+        lits = []
+        for sb in sorted(cfg.reach):
+            if f.term(sb)["k"] != "switch" or len(cfg.succ[sb]) < 2 or sb == bb or not cfg.dominates(sb, bb):
+                continue
+            if is_drop_flag(f, f.term(sb)):
+                continue
+            succs = cfg.succ[sb]
+            taken = [s2 for s2 in succs if cfg.dominates(s2, bb) and len([p for p in cfg.pred[s2] if p in cfg.reach]) == 1]
+            if len(taken) != 1:
+                # early-exit idiom: only one successor can reach bb at all
+                reach = [s2 for s2 in succs if s2 == bb or bb in cfg.reachable_from(s2)]
+                if len(reach) != 1:
+                    continue
+                taken = reach
+            for l in self.literals_of_edge(f, sb, taken[0]):
+                if l[0] not in ("true", "false"):
+                    lits.append(l)
+        lits = set(lits)
+        # a positive `LEN == k` makes every `LEN != j` redundant (if-chains accumulate them, a match does not)
+        lits = simplify_int_literals(lits)
+        return sorted(lits)
 
     def skeleton(self, f):
-        """-> sorted list of fact strings"""
-        fvp = self.fvp
+        """-> sorted list of fact strings: every effect with the set of branch literals that guard it, the conditions
+        under which each loop continues, and the returned value"""
         cfg = f.cfg
         facts = set()
-        # real branches only: a switch on a literal (debug_assert!, cfg!) has a single live successor
-        switches = [b for b in sorted(cfg.reach) if f.term(b)["k"] == "switch" and len(cfg.succ[b]) > 1]
-        # blocks owned by an edge: dominated by the edge target (when the target has a single predecessor),
-        # minus blocks dominated by the targets of nested switches
-        def region(target, src):
-            if len([p for p in cfg.pred[target] if p in cfg.reach]) != 1:
-                return {target} if False else set()
-            reg = {b for b in cfg.reach if cfg.dominates(target, b)}
-            return reg
 
-        def direct_effects(reg):
-            nested = set()
-            for b in reg:
-                if f.term(b)["k"] == "switch" and len(cfg.succ[b]) > 1:
-                    for s in cfg.succ[b]:
-                        if len([p for p in cfg.pred[s] if p in cfg.reach]) == 1:
-                            nested |= {x for x in reg if cfg.dominates(s, x)}
-            own = reg - nested
-            eff = []
-            for b in sorted(own):
-                eff.extend(self.block_effects(f, b))
-            return sorted(set(eff))
+        def when(lits):
+            return " & ".join(sorted("%s%s" % ("" if pol else "!", txt) for txt, pol in lits)) or "always"
 
-        def flags(target, src):
-            # does this edge allow the innermost loop of src to continue?
-            loops = cfg.in_loop(src)
-            fl = []
-            if loops:
-                lp = min(loops, key=lambda l: len(l["body"]))
-                reach = cfg.reachable_from(target) | {target}
-                back_srcs = {a for a, h in lp["backedges"]}
-                cont = any(b in reach and b in lp["body"] for b in back_srcs) and target in lp["body"]
-                fl.append("continues" if cont else "leaves-loop")
-            return fl
-
-        for sb in switches:
-            t = f.term(sb)
-            d = fvp.switch_discr(f, sb)
-            cond = self.c(d)
-            if cond in ("true", "false") or re.fullmatch(r"mu\{(true|false|\|)+\}", cond):
-                continue  # drop flags
-            if is_drop_flag(f, t):
+        for b in sorted(cfg.reach):
+            effs = self.block_effects(f, b)
+            if not effs:
                 continue
-            edges = []
-            targets = [(v, tb) for v, tb in t["targets"]] + [("else", t["otherwise"])]
-            for v, tb in targets:
-                if f.blocks[tb]["term"]["k"] == "unreachable":
+            w = when(self.dominating_literals(f, b))
+            for e in effs:
+                facts.add("%s  WHEN %s" % (e, w))
+        # assignments to multiply-defined user variables (which candidate is selected under which comparison outcome)
+        r = self.fvp.reach(f)
+        for l in sorted(r.multi):
+            if l == 0 or not f.locals[l]["name"]:
+                continue
+            sig = "M{%s}" % "|".join(sorted(x for x in self.gens(f, l) if x != "μ") or ["μ"])
+            live = self.live_defs(f)
+            nlive = sum(1 for did in r.defs_of(l) if did in live) + (1 if f.locals[l]["arg"] else 0)
+            if nlive < 2:
+                continue   # effectively single-assignment (e.g. a dummy initialiser that no use can see)
+            for did in sorted(r.defs_of(l), key=str):
+                if did not in live:
                     continue
-                reg = region(tb, sb)
-                eff = direct_effects(reg) if reg else []
-                edges.append("%s=>[%s]%s" % (v, "; ".join(eff), "".join("<%s>" % x for x in flags(tb, sb))))
-            facts.add("IF %s :: %s" % (cond, " || ".join(edges)))
-        # unconditional effects: blocks not dominated by any single-pred switch target
-        owned = set()
-        for sb in switches:
-            for s in cfg.succ[sb]:
-                if len([p for p in cfg.pred[s] if p in cfg.reach]) == 1:
-                    owned |= {x for x in cfg.reach if cfg.dominates(s, x)}
-        top = []
-        for b in sorted(cfg.reach - owned):
-            top.extend(self.block_effects(f, b))
-        for e in sorted(set(top)):
-            facts.add("ALWAYS " + e)
-        # loops: induction structure
+                d = r.defs[did]
+                v = self.fvp.def_term(f, d, ())
+                facts.add("SET %s := %s  WHEN %s" % (sig, self.c(v), when(self.dominating_literals(f, d[1]))))
         for lp in cfg.loops:
-            facts.add("LOOP header-cond-block bb? size=%d" % 0)
-        facts = {x for x in facts if not x.startswith("LOOP")}
-        r = fvp.local(f, 0, cfg.returns[0], 10 ** 6) if cfg.returns else None
+            for (a, h) in lp["backedges"]:
+                facts.add("LOOP-CONTINUES  WHEN %s" % when(self.dominating_literals(f, a)))
+        for rb in cfg.returns:
+            pass
+        r = self.fvp.local(f, 0, cfg.returns[0], 10 ** 6) if cfg.returns else None
         if r is not None and f.j.get("output", {}).get("s") not in ("()", None):
-            facts.add("RETURNS " + self.c(r))
+            rs = self.c(r)
+            facts.add("RETURNS " + rs)
+            # which value is returned under which condition (find_max's arm table and the like)
+            for d in f.defs.get(0, []):
+                if d[0] == "stmt":
+                    v = self.fvp.rvalue(f, d[3]["rv"], d[1], d[2])
+                    facts.add("RETURN %s  WHEN %s" % (self.c(v), when(self.dominating_literals(f, d[1]))))
+                elif d[0] == "call":
+                    facts.add("RETURN %s  WHEN %s" % (self.c(self.fvp.call_term(f, d[1])), when(self.dominating_literals(f, d[1]))))
         return sorted(facts)
 
     def block_effects(self, f, b):
@@ -175,6 +348,129 @@ class Skel:
         return out
 
 
+CMP_RE = re.compile(r"^(p?)(lt|le)\((.*)\)$")
+
+
+def split_top(argstr):
+    depth = 0
+    for i, ch in enumerate(argstr):
+        if ch in "([{":
+            depth += 1
+        elif ch in ")]}":
+            depth -= 1
+        elif ch == "," and depth == 0:
+            return argstr[:i], argstr[i + 1:]
+    return argstr, ""
+
+
+INT_RE = re.compile(r"^(\d+)_usize$")
+
+
+def int_literal(op, a, k, truth):
+    """normal forms for comparisons of an unsigned quantity `a` with a literal k: GE(a,k) / LE(a,k) / EQ(a,k) / NE(a,k)"""
+    if op == "Eq":
+        if truth:
+            return ("LE(%s,0)" % a, True) if k == 0 else ("EQ(%s,%d)" % (a, k), True)
+        return ("GE(%s,1)" % a, True) if k == 0 else ("EQ(%s,%d)" % (a, k), False)
+    if op == "LtAK":      # a < k
+        if truth:
+            return ("LE(%s,%d)" % (a, k - 1), True) if k >= 1 else ("false", True)
+        return ("GE(%s,%d)" % (a, k), True)
+    if op == "LtKA":      # k < a
+        if truth:
+            return ("GE(%s,%d)" % (a, k + 1), True)
+        return ("LE(%s,%d)" % (a, k), True)
+    return ("%s(%s,%d)" % (op, a, k), truth)
+
+
+def simplify_int_literals(lits):
+    """drop literals implied by others on the same quantity: EQ(a,k) implies every !EQ(a,j), GE(a,j<=k), LE(a,j>=k);
+    keep only the strongest GE / LE"""
+    by = {}
+    rest = set()
+    pat = re.compile(r"^(GE|LE|EQ)\((.*),(\d+)\)$")
+    for txt, pol in lits:
+        m = pat.match(txt)
+        if not m:
+            rest.add((txt, pol))
+            continue
+        by.setdefault(m.group(2), []).append((m.group(1), int(m.group(3)), pol))
+    out = set(rest)
+    for a, items in by.items():
+        eqs = [k for op, k, pol in items if op == "EQ" and pol]
+        if eqs:
+            out.add(("EQ(%s,%d)" % (a, eqs[0]), True))
+            continue
+        ges = [k for op, k, pol in items if op == "GE"]
+        les = [k for op, k, pol in items if op == "LE"]
+        lo = max(ges) if ges else None
+        hi = min(les) if les else None
+        nes = sorted(k for op, k, pol in items if op == "EQ" and not pol)
+        # x >= lo and x != lo  =>  x >= lo+1 (repeat)
+        changed = True
+        while changed and lo is not None:
+            changed = False
+            if lo in nes:
+                nes.remove(lo)
+                lo += 1
+                changed = True
+        if lo is None and nes and nes[0] == 0:
+            pass
+        if lo is not None and hi is not None and lo == hi:
+            out.add(("EQ(%s,%d)" % (a, lo), True))
+            continue
+        if lo is not None:
+            out.add(("GE(%s,%d)" % (a, lo), True))
+        if hi is not None:
+            out.add(("LE(%s,%d)" % (a, hi), True))
+        for k in nes:
+            if (lo is None or k >= lo) and (hi is None or k <= hi):
+                out.add(("EQ(%s,%d)" % (a, k), False))
+    return out
+
+
+def normalise_bool(txt, truth):
+    """(canonical text, polarity): le(a,b) == !lt(b,a); Le/Lt on integers likewise; Ne == !Eq; is_empty == eq(LEN,0)"""
+    m = CMP_RE.match(txt)
+    if m:
+        p, op, args = m.groups()
+        a, b = split_top(args)
+        if op == "le":
+            return ("%slt(%s,%s)" % (p, b, a), not truth)
+        return ("%slt(%s,%s)" % (p, a, b), truth)
+    for op in ("Lt", "Le", "Eq", "Ne"):
+        if txt.startswith(op + "(") and txt.endswith(")"):
+            a, b = split_top(txt[len(op) + 1:-1])
+            ma, mb = INT_RE.match(a), INT_RE.match(b)
+            if ma or mb:
+                # comparison with an integer literal: one normal form whatever the spelling
+                if op in ("Eq", "Ne"):
+                    k, x = (int(ma.group(1)), b) if ma else (int(mb.group(1)), a)
+                    return int_literal("Eq", x, k, truth if op == "Eq" else not truth)
+                if op == "Lt":
+                    return int_literal("LtKA", b, int(ma.group(1)), truth) if ma else int_literal("LtAK", a, int(mb.group(1)), truth)
+                if op == "Le":   # a <= b  ==  !(b < a)
+                    return int_literal("LtAK", b, int(ma.group(1)), not truth) if ma else int_literal("LtKA", a, int(mb.group(1)), not truth)
+            if op == "Le":
+                return ("Lt(%s,%s)" % (b, a), not truth)
+            if op == "Lt":
+                return ("Lt(%s,%s)" % (a, b), truth)
+            if op == "Ne":
+                a, b = sorted((a, b))
+                return ("Eq(%s,%s)" % (a, b), not truth)
+            a, b = sorted((a, b))
+            return ("Eq(%s,%s)" % (a, b), truth)
+    if txt.startswith("std::cmp::PartialEq::ne(") :
+        a, b = split_top(txt[len("std::cmp::PartialEq::ne("):-1])
+        a, b = sorted((a, b))
+        return ("Eq(%s,%s)" % (a, b), not truth)
+    if txt.startswith("std::cmp::PartialEq::eq("):
+        a, b = split_top(txt[len("std::cmp::PartialEq::eq("):-1])
+        a, b = sorted((a, b))
+        return ("Eq(%s,%s)" % (a, b), truth)
+    return (txt, truth)
+
+
 def is_drop_flag(f, t):
     d = t["discr"]
     if d["k"] in ("copy", "move") and not d["place"]["proj"]:
@@ -196,6 +492,10 @@ def dualise(fact):
     s = flip_priority_cmps(s)
     for a, b in POLARITY:
         s = s.replace(a, "\0").replace(b, a).replace("\0", b)
+    # the literal set is unordered: re-sort it after the exchange
+    if "  WHEN " in s:
+        head, w = s.split("  WHEN ", 1)
+        s = head + "  WHEN " + " & ".join(sorted(w.split(" & ")))
     return s
 
 
